@@ -122,6 +122,14 @@ func symbolizeMapping(source string, offset int64, syms func(string, string) ([]
 
 	lines := make(map[uint64]profile.Line)
 	functions := make(map[string]*profile.Function)
+	// New functions get ids above every id in use: existing ids are not
+	// necessarily 1..len(p.Function).
+	var maxID uint64
+	for _, f := range p.Function {
+		if f.ID > maxID {
+			maxID = f.ID
+		}
+	}
 
 	b, err := syms(source, strings.Join(a, "+"))
 	if err != nil {
@@ -153,8 +161,9 @@ func symbolizeMapping(source string, offset int64, syms func(string, string) ([]
 			name := symbol[2]
 			fn := functions[name]
 			if fn == nil {
+				maxID++
 				fn = &profile.Function{
-					ID:         uint64(len(p.Function) + 1),
+					ID:         maxID,
 					Name:       name,
 					SystemName: name,
 				}
